@@ -79,6 +79,17 @@ let judge (oc : out_channel) (prop : string) (id : string) (what : string) (ok :
 
 let avx512 = ref true
 
+(* C20: a build either throws exactly the expected exception when the input violates the precondition, or succeeds *)
+let judge_reject jo id lines (tag : string) (violates : bool) (expected_kind : string) =
+  List.iter (fun toks -> match toks with
+    | [t; "throw"; kind] when t = tag -> judge jo "C20" id (tag ^ " threw " ^ kind ^ " (precondition violated: " ^ string_of_bool violates ^ ")") (violates && kind = expected_kind)
+    | [t; "ok"] when t = tag -> judge jo "C20" id (tag ^ ": invalid input was accepted") (not violates)
+    | [t; "null"] when t = tag -> judge jo "C20" id (tag ^ ": NULL returned (precondition violated: " ^ string_of_bool violates ^ ")") violates
+    | _ -> ()) lines
+
+let ends_with_reserved kt data = match List.rev data with l :: _ -> zout l = zout (kmax kt) | [] -> false
+
+
 (* ---- IDX: PGMIndex build + search ---- *)
 let run_idx mo jo impl secs =
   match secs with
@@ -107,6 +118,11 @@ let run_idx mo jo impl secs =
      | None -> ()
      | Some lines ->
        let sentinel = kmax cfg.c_kt in
+       let reserved = List.exists (fun d -> zout d = zout sentinel) data && (match List.rev data with l :: _ -> zout l = zout sentinel | [] -> false) in
+       List.iter (fun toks -> match toks with
+         | ["B"; "throw"; kind] -> judge jo "C20" id ("build threw " ^ kind) (kind = "invalid_argument" && reserved)
+         | ["B"; "ok"] -> judge jo "C20" id "data ending with the reserved value was indexed" (not reserved)
+         | _ -> ()) lines;
        let present = Hashtbl.create 1024 in
        List.iter (fun d -> Hashtbl.replace present (zout d) ()) data;
        let epsrec = iz cfg.c_epsrec in
@@ -268,6 +284,45 @@ let run_seg mo jo impl secs =
        end)
   | _ -> ()
 
+(* ---- PLA: direct use of the builder with a signed rank type (rejections, C20) ---- *)
+let run_pla mo jo impl secs =
+  match secs with
+  | ("PLA" :: id :: _kb :: _sg :: eps :: _) :: _ ->
+    let yt = { ymin = zin "-9223372036854775808"; ymax = zin "9223372036854775807" } in
+    pr mo "C %s\n" id;
+    (match pla_init (zin eps) with
+     | Err e -> pr mo "B %s\n" (err_name e)
+     | Ok s0 ->
+       pr mo "B ok\n";
+       let s = ref s0 and stop = ref false in
+       List.iter (fun t -> if not !stop then
+         match String.split_on_char ':' t with
+         | [x; y] ->
+           (match add_point yt !s (zin x) (zin y) with
+            | Ok (ok, s1) ->
+              pr mo "A %s %s %d\n" x y (if ok then 1 else 0);
+              if ok then s := s1 else (match add_point yt s1 (zin x) (zin y) with Ok (_, s2) -> s := s2 | Err _ -> ())
+            | Err e -> pr mo "A %s %s %s\n" x y (err_name e); stop := true)
+         | _ -> ()) (nth_sec secs 1));
+    (match Hashtbl.find_opt impl id with
+     | None -> ()
+     | Some lines ->
+       let prevx = ref None in
+       List.iter (fun toks -> match toks with
+         | ["B"; "throw"; kind] -> judge jo "C20" id ("negative epsilon rejected with " ^ kind) (kind = "invalid_argument" && ZA.sign (ZA.of_string eps) < 0)
+         | ["B"; "ok"] -> judge jo "C20" id "negative epsilon accepted" (ZA.sign (ZA.of_string eps) >= 0)
+         | ["A"; x; _; "throw"; kind] ->
+           judge jo "C20" id ("non-increasing key rejected with " ^ kind)
+             (kind = "logic_error" && (match !prevx with Some p -> ZA.leq (ZA.of_string x) p | None -> false))
+         | ["A"; x; _; r] ->
+           (* accepted or segment-closing: the key must exceed its predecessor inside a segment *)
+           (match !prevx with
+            | Some p when r = "1" -> judge jo "C20" id ("key " ^ x ^ " not above its predecessor was accepted") (ZA.gt (ZA.of_string x) p)
+            | _ -> ());
+           prevx := Some (ZA.of_string x)
+         | _ -> ()) lines)
+  | _ -> ()
+
 (* ---- DYN: DynamicPGMIndex histories ---- *)
 let split_colon (t : string) = String.split_on_char ':' t
 
@@ -331,6 +386,10 @@ let run_dyn mo jo impl secs =
     (match Hashtbl.find_opt impl id with
      | None -> ()
      | Some lines ->
+       let b = iz (zin base) in
+       let unsorted = let rec go = function (a, _) :: ((c, _) :: _ as t) -> ZA.gt (zz_of_z a) (zz_of_z c) || go t | _ -> false in go pairs in
+       let bad_value = tomb <> None && List.exists (fun (_, v) -> zout v = "4294967295") pairs in
+       if b >= 2 then judge_reject jo id lines "B" ((b land (b - 1)) <> 0 || unsorted || bad_value) "invalid_argument";
        let m = ref (am_bulk pairs) in
        let opsl = ref (nth_sec secs 2) in
        let next_op () = match !opsl with o :: t -> opsl := t; split_colon o | [] -> [] in
@@ -432,6 +491,7 @@ let run_bkt mo jo impl secs =
      | None -> ()
      | Some lines ->
        let sentinel = kmax kt in
+       judge_reject jo id lines "B" (ends_with_reserved kt data) "invalid_argument";
        let nn = zi (List.length data) in
        let first = (match data with x :: _ -> x | [] -> Z0) and last = List.fold_left (fun _ x -> x) Z0 data in
        let top = List.concat_map (function "P" :: t -> List.map int_of_string t | _ -> []) lines in
@@ -495,6 +555,7 @@ let run_efi mo jo impl secs =
              (!t >= 0 && r = string_of_int !t && o = ZA.to_string stored.(!t))
          | _ -> ()) lines);
     let sentinel = kmax kt in
+    judge_reject jo id lines "B" (ends_with_reserved kt data) "invalid_argument";
     List.iter (fun toks -> judge_search jo "C10" id c.c_eps data sentinel toks) lines
   | _ -> ()
 
@@ -543,6 +604,8 @@ let run_map mo jo impl secs =
      | Some lines ->
        let nn = List.length data in
        let sentinel = zout (kmax kt) in
+       judge_reject jo id lines "BA" (ends_with_reserved kt data) "invalid_argument";
+       judge_reject jo id lines "BB" (ends_with_reserved kt data) "invalid_argument";
        let fa = ref "" and fb = ref "" in
        let answers = Hashtbl.create 64 in
        List.iter (fun toks -> match toks with
@@ -602,6 +665,9 @@ let run_mul mo jo impl secs =
     (match Hashtbl.find_opt impl id with
      | None -> ()
      | Some lines ->
+       let fb = iz m.m_tbits / iz m.m_dims in
+       let wide = List.exists (fun p -> List.exists (fun x -> ZA.numbits (zz_of_z x) >= fb) p) points in
+       judge_reject jo id lines "B" wide "runtime_error";
        let codes = List.concat_map (function "D" :: t -> List.map zin t | _ -> []) lines in
        let inbox lo hi p = List.for_all2 (fun (a, b) x -> ZA.leq (zz_of_z a) (zz_of_z x) && ZA.leq (zz_of_z x) (zz_of_z b)) (List.combine lo hi) p in
        let pset = Hashtbl.create 256 in
@@ -673,6 +739,7 @@ let run_cix mo jo impl secs =
      | Some lines ->
        let sentinel = kmax kt in
        let has_reserved = List.exists (fun d -> zout d = zout sentinel) data in
+       judge_reject jo id lines "B" (ends_with_reserved kt data) "invalid_argument";
        List.iter (fun toks -> match toks with
          | ["B"; r] -> judge jo "C18" id ("create returned " ^ r ^ " (reserved value present: " ^ string_of_bool has_reserved ^ ")") ((r = "null") = has_reserved)
          | _ -> judge_search jo "C18" id c.c_eps data sentinel toks) lines)
@@ -747,12 +814,14 @@ let () =
   List.iter (fun line ->
     let secs = sections line in
     match mode with
-    | "idx" -> run_idx mo jo impl secs; run_seg mo jo impl secs
+    | "idx" -> run_idx mo jo impl secs; run_seg mo jo impl secs; run_pla mo jo impl secs
     | "dyn" -> run_dyn mo jo impl secs
     | "var" -> run_bkt mo jo impl secs; run_efi mo jo impl secs
     | "map" -> run_map mo jo impl secs
     | "mul" -> run_mul mo jo impl secs
     | "capi" -> run_cix mo jo impl secs; run_cdy mo jo impl secs
+    | "all" -> run_idx mo jo impl secs; run_seg mo jo impl secs; run_pla mo jo impl secs; run_dyn mo jo impl secs; run_bkt mo jo impl secs; run_efi mo jo impl secs;
+      run_map mo jo impl secs; run_mul mo jo impl secs; run_cix mo jo impl secs; run_cdy mo jo impl secs
     | _ -> failwith "unknown mode") (read_lines cases);
   Hashtbl.iter (fun prop (n, f) -> pr jo "JSUM %s %d %d\n" prop n f) jcount;
   close_out mo; close_out jo
